@@ -37,6 +37,34 @@ pub fn generate(seed: u64, thorough: bool) -> Scenario {
     sc
 }
 
+/// class-representative token alphabet of the exhaustive prefix of a batch
+pub const ENUM_TOKENS: [&[u8]; 15] = [b"FOO", b"SYST", b":", b";", b"*", b"?", b" ", b",", b"\n", b"\"", b"'", b"#", b"1", b"A", b"E"];
+
+/// number of token strings of length 1..=max_len
+pub fn enum_count(max_len: u32) -> u64 {
+    (1..=max_len).map(|l| (ENUM_TOKENS.len() as u64).pow(l)).sum()
+}
+
+/// the `index`-th token string in length-lexicographic order
+pub fn enum_stream(mut index: u64) -> Vec<u8> {
+    let k = ENUM_TOKENS.len() as u64;
+    let mut len = 1u32;
+    while index >= k.pow(len) {
+        index -= k.pow(len);
+        len += 1;
+    }
+    let mut toks = Vec::new();
+    for _ in 0..len {
+        toks.push((index % k) as usize);
+        index /= k;
+    }
+    let mut v = Vec::new();
+    for t in toks.iter().rev() {
+        v.extend_from_slice(ENUM_TOKENS[*t]);
+    }
+    v
+}
+
 pub fn build_exec(sc: &Scenario) -> Exec {
     let stream = sc.bytes();
     let s = sc.sched(0);
@@ -71,6 +99,33 @@ impl Prop for C05T {
         if thorough { 100_000_000 } else { 2_000_000 }
     }
     fn generate(&self, seed: u64, thorough: bool) -> Scenario {
+        generate(seed, thorough)
+    }
+    fn generate_at(&self, index: u64, seed: u64, thorough: bool) -> Scenario {
+        // the first indices of a batch enumerate EVERY string of up to 4 (quick) / 5
+        // (thorough) tokens of a class-representative alphabet, on the hand-written tree
+        // interface; N, delivery mode and schedule are seeded.  Supplementary to the
+        // seeded search that follows.
+        let max_len = if thorough { 5 } else { 4 };
+        if index < enum_count(max_len) {
+            let mut rng = Rng::new(seed);
+            let iface = 0;
+            let n = *rng.pick(simcore::spec::IFACES[iface].ns);
+            let mut stream = enum_stream(index);
+            if rng.chance(1, 2) {
+                stream.push(b'\n');
+            }
+            let mut sc = Scenario { prop: "C05".into(), seed, iface, cap: 0, n, stream, ..Default::default() };
+            let mode = *rng.pick(&[0i64, 0, 1, 2]);
+            sc.set("mode", mode);
+            sc.set("enumerated", index as i64);
+            if mode == 1 {
+                sc.set("sink_cap", if rng.chance(1, 2) { -1 } else { rng.below(9) as i64 });
+            }
+            let sched = gen::sched(&mut rng, &sc.stream);
+            sc.scheds.push(sched);
+            return sc;
+        }
         generate(seed, thorough)
     }
     fn check(&self, sc: &Scenario, st: &mut Stats) -> Verdict {
@@ -140,10 +195,13 @@ impl Prop for C05T {
             st.bump("reach:run_returned_remainder");
             nontrivial = true;
         }
+        if sc.knob("enumerated").is_some() {
+            st.bump("reach:enumerated_token_strings");
+        }
         Verdict::Held { nontrivial, sig: scenario_sig(sc) }
     }
     fn rule(&self) -> &'static str {
-        "one scenario = (interface, N, byte stream of class arbitrary/by-construction/mutated/oversize, delivery mode process|run with sink kind and capacity, read schedule, suspension tape[, cancellation poll]); distinct = distinct hash of all of these; non-trivial = the run reached a full sink or a response that did not fit, or kept unprocessed bytes across reads (carry-over / compaction / overflow reset), or run returned a non-empty remainder"
+        "the first 54 240 (quick) / 813 615 (thorough) scenarios enumerate every string of up to 4 / 5 tokens over the alphabet {FOO SYST : ; * ? space , newline \" ' # 1 A E} on interface t0 with seeded N, mode and schedule; then one scenario = (interface, N, byte stream of class arbitrary/by-construction/mutated/oversize, delivery mode process|run with sink kind and capacity, read schedule, suspension tape[, cancellation poll]); distinct = distinct hash of all of these; non-trivial = the run reached a full sink or a response that did not fit, or kept unprocessed bytes across reads (carry-over / compaction / overflow reset), or run returned a non-empty remainder"
     }
     fn assumptions(&self) -> Vec<&'static str> {
         vec![
@@ -153,6 +211,6 @@ impl Prop for C05T {
         ]
     }
     fn probes(&self) -> Vec<&'static str> {
-        vec!["fired:empty_read", "fired:exact_fill_read", "fired:sink_full", "reach:overflow_reset", "reach:carry_over", "reach:response_did_not_fit", "reach:run_returned_remainder", "fired:suspension"]
+        vec!["reach:enumerated_token_strings", "fired:empty_read", "fired:exact_fill_read", "fired:sink_full", "reach:overflow_reset", "reach:carry_over", "reach:response_did_not_fit", "reach:run_returned_remainder", "fired:suspension"]
     }
 }
